@@ -10,6 +10,9 @@ import (
 
 var props = map[string]func(*Ctx){}
 
+// scenarios that may crash the process (a panic in a goroutine of the library cannot be recovered) run in a child process
+var scenarios = map[string]func() (bool, string){}
+
 func main() {
 	prop := flag.String("prop", "", "property id")
 	tier := flag.String("tier", "quick", "quick|thorough")
@@ -20,7 +23,21 @@ func main() {
 	verif := flag.String("verif", "/verif", "verif root")
 	replay := flag.String("replay", "", "replay file")
 	emit := flag.String("emit-shipped", "", "write coq/Gen/Shipped.v and exit")
+	scenario := flag.String("scenario", "", "run one isolated scenario in this process and exit (used by the harness itself)")
 	flag.Parse()
+	if *scenario != "" {
+		f, ok := scenarios[*scenario]
+		if !ok {
+			fmt.Println("SCENARIO-FAIL: unknown scenario")
+			os.Exit(1)
+		}
+		if ok, msg := f(); !ok {
+			fmt.Println("SCENARIO-FAIL:", msg)
+			os.Exit(1)
+		}
+		fmt.Println("SCENARIO-OK")
+		return
+	}
 	if *emit != "" {
 		if err := emitShipped(*repo, *emit); err != nil {
 			fmt.Fprintln(os.Stderr, "harness:", err)
